@@ -256,6 +256,14 @@ def rewrite(toks, log, where, keep_attrs=()):
                 out.extend(toks[i:e + 1])
                 i = e + 1
                 continue
+        # R17: `use` declarations inside bodies (name resolution only)
+        if t.kind == IDENT and t.text == "use":
+            k = i
+            while k < n and not (toks[k].kind == PUNCT and toks[k].text == ";"):
+                k += 1
+            log.add("R17", where, " ".join(untok(toks[i:k + 1]).split())[:80], "")
+            i = k + 1
+            continue
         # R1 async fn
         if t.kind == IDENT and t.text == "async":
             k = nxt(i)
